@@ -95,6 +95,19 @@ def check(run, holder, trace):
     hx, _ = exposed(holder)
     if {k[len("params."):] for k in hx} != set(ex):
         bad.append("the holder module exposes a different set")
+    # "any tensor set in the tensordict is automatically converted" (class doc): whatever the setter, no leaf stays a bare
+    # torch.Tensor — a Parameter (or, for integer dtypes / no_convert, a Buffer)
+    from tensordict.nn.params import Buffer
+    try:
+        from tensordict.utils import BufferLegacy
+    except ImportError:  # pragma: no cover
+        BufferLegacy = Buffer
+    bare = [k for k, v in lv.items() if isinstance(v, torch.Tensor) and not isinstance(v, (nn.Parameter, Buffer, BufferLegacy))]
+    if bare:
+        run.oracle_fail("params_leaves_converted", trace, f"leaves left as bare tensors (neither Parameter nor Buffer) inside a TensorDictParams: {bare}",
+                        "tdparams:bare-leaf")
+    else:
+        run.oracle_ok("params_leaves_converted")
     if bad:
         kind = "leaf-not-exposed" if "leaf but not exposed: [" in bad[0] and "leaf but not exposed: []" not in bad[0] else "other"
         run.oracle_fail("params_exposes_leaves", trace, "; ".join(bad), "tdparams:" + kind)
